@@ -363,6 +363,13 @@ func (a *Agent) gatherCandidatesLocal(ctx context.Context, networkTypes []Networ
 			}
 
 			for network := range networks {
+				// Address families and transports are derived from networkTypes independently, only
+				// gather the combinations that are enabled (no udp6 for [udp4, tcp6]).
+				if networkType, ntErr := determineNetworkType(network, mappedIP); ntErr != nil ||
+					!slices.Contains(networkTypes, networkType) {
+					continue
+				}
+
 				type connAndPort struct {
 					conn net.PacketConn
 					port int
